@@ -118,7 +118,31 @@ pub fn boards_of(b: &crate::Board) -> [u64; 16] {
 }
 
 pub fn board_from(p: &[u64; 16]) -> crate::Board {
-    crate::Board::new(crate::utils::ArrayMap::new(p.map(BitBoard::new)))
+    // written out (no loop) so that harnesses with a small global unwind bound can use it
+    let b = BitBoard::new;
+    crate::Board::new(crate::utils::ArrayMap::new([
+        b(p[0]), b(p[1]), b(p[2]), b(p[3]), b(p[4]), b(p[5]), b(p[6]), b(p[7]),
+        b(p[8]), b(p[9]), b(p[10]), b(p[11]), b(p[12]), b(p[13]), b(p[14]), b(p[15]),
+    ]))
+}
+
+/// loop-free version of boards_wf (for harnesses with a small global unwind bound)
+pub fn boards_wf_unrolled(p: &[u64; 16]) -> bool {
+    let u1 = p[1];
+    let u2 = u1 | p[2];
+    let u3 = u2 | p[3];
+    let u4 = u3 | p[4];
+    let u5 = u4 | p[5];
+    let u6 = u5 | p[6];
+    let u9 = u6 | p[9];
+    let u10 = u9 | p[10];
+    let u11 = u10 | p[11];
+    let u12 = u11 | p[12];
+    let u13 = u12 | p[13];
+    p[0] == 0 && p[7] == 0 && p[8] == 0 && p[15] == 0
+        && p[2] & u1 == 0 && p[3] & u2 == 0 && p[4] & u3 == 0 && p[5] & u4 == 0 && p[6] & u5 == 0
+        && p[9] & u6 == 0 && p[10] & u9 == 0 && p[11] & u10 == 0 && p[12] & u11 == 0 && p[13] & u12 == 0
+        && p[14] & u13 == 0
 }
 
 /// piece code standing on square t: 0 = empty, otherwise color*8 + kind
